@@ -199,6 +199,10 @@ class AVM(FeatureStructure, Term):
     def _default(cls):
         return AVM()
 
+    def _is_notable(self):
+        # an AVM with a docstring cannot be folded into a feature path
+        return self.docstring is not None or super()._is_notable()
+
     def __setitem__(self, key, val):
         if not (val is None or isinstance(val, (Term, Conjunction))):
             raise TypeError('invalid attribute value type: {}'.format(
